@@ -105,6 +105,16 @@ impl BitBuffer {
         result
     }
 
+    /// The multi-bit reads must not deliver the padding bits (or stale bytes) behind the write-position
+    #[inline]
+    fn ensure_can_read_bits(&self, bit_len: usize) -> Result<(), Error> {
+        if self.write_position.saturating_sub(self.read_position) < bit_len {
+            Err(ErrorKind::EndOfStream.into())
+        } else {
+            Ok(())
+        }
+    }
+
     pub fn ensure_can_write_additional_bits(&mut self, bit_len: usize) {
         if self.write_position + bit_len >= self.buffer.len() * BYTE_LEN {
             let required_len = ((self.write_position + bit_len) + 7) / BYTE_LEN;
@@ -139,6 +149,7 @@ impl BitRead for BitBuffer {
 
     #[inline]
     fn read_bits(&mut self, dst: &mut [u8]) -> Result<(), Error> {
+        self.ensure_can_read_bits(dst.len() * BYTE_LEN)?;
         BitRead::read_bits(&mut (&self.buffer[..], &mut self.read_position), dst)
     }
 
@@ -148,6 +159,7 @@ impl BitRead for BitBuffer {
         dst: &mut [u8],
         dst_bit_offset: usize,
     ) -> Result<(), Error> {
+        self.ensure_can_read_bits((dst.len() * BYTE_LEN).saturating_sub(dst_bit_offset))?;
         BitRead::read_bits_with_offset(
             &mut (&self.buffer[..], &mut self.read_position),
             dst,
@@ -157,6 +169,7 @@ impl BitRead for BitBuffer {
 
     #[inline]
     fn read_bits_with_len(&mut self, dst: &mut [u8], dst_bit_len: usize) -> Result<(), Error> {
+        self.ensure_can_read_bits(dst_bit_len)?;
         BitRead::read_bits_with_len(
             &mut (&self.buffer[..], &mut self.read_position),
             dst,
@@ -171,6 +184,7 @@ impl BitRead for BitBuffer {
         dst_bit_offset: usize,
         dst_bit_len: usize,
     ) -> Result<(), Error> {
+        self.ensure_can_read_bits(dst_bit_len)?;
         BitRead::read_bits_with_offset_len(
             &mut (&self.buffer[..], &mut self.read_position),
             dst,
